@@ -1,0 +1,16 @@
+package pugjs
+
+import (
+	"testing"
+
+	"github.com/stretchr/testify/assert"
+)
+
+// an object literal which writes a key twice lists the key once, at its first position, with the last value
+func TestObjectLiteralRepeatedKey(t *testing.T) {
+	m := funcmap["__op__map"].(func(...interface{}) Object)("a", 1, "b", 5, "a", 2).(*Map)
+
+	assert.Equal(t, []string{"a", "b"}, m.Keys())
+	assert.Equal(t, Number(2), m.Member("a"))
+	assert.Equal(t, `{"a":2,"b":5}`, m.String())
+}
